@@ -178,6 +178,8 @@ class Run:
         self.discharged = 0
         self.checker_cmd = ""
         self.known = json.loads(KNOWN.read_text()) if KNOWN.exists() else {"findings": [], "fixed": []}
+        for old in REPLAYS.glob(f"{pid}-{tier}-{seed}-*.json"):  # stale replays of an earlier run with the same parameters
+            old.unlink()
 
     # -- scratch ---------------------------------------------------------------------------------
     def scratch(self) -> Path:
